@@ -4,6 +4,7 @@
 -/
 import Mhub2.Basic
 import Mhub2.Sha256
+import Mhub2.Address
 namespace Mhub2
 
 /-- A Minter transaction as far as the connector looks at it. -/
@@ -36,29 +37,6 @@ def commandValid (typeKnown recipientOk : Bool) (fee : Option Int) (amount : Int
 
 /-! ### Command validation at byte level (`command.ValidateAndComplete`, go-ethereum `common.IsHexAddress`,
     `common.HexToAddress(..).Hex()`, `sdk.NewIntFromString`) -/
-
-def has0xPrefix : Bytes → Bool
-  | 48 :: c :: _ => c == 120 || c == 88
-  | _ => false
-
-def isHexCharacter (c : Nat) : Bool :=
-  (48 ≤ c && c ≤ 57) || (97 ≤ c && c ≤ 102) || (65 ≤ c && c ≤ 70)
-
-def strip0xBytes (b : Bytes) : Bytes := if has0xPrefix b then b.drop 2 else b
-
-/-- `common.IsHexAddress`: an optional `0x`/`0X`, then exactly 40 hex characters. -/
-def isHexAddress (b : Bytes) : Bool :=
-  (strip0xBytes b).length == 40 && (strip0xBytes b).all isHexCharacter
-
-def lowerHexChar (c : Nat) : Nat := if 65 ≤ c && c ≤ 70 then c + 32 else c
-
-def nibbles (b : Bytes) : List Nat := b.flatMap fun x => [x / 16, x % 16]
-
-/-- EIP-55 rendering of 40 hex characters: `0x` and the lower-case digits, a letter in upper case
-    where the corresponding nibble of keccak256(lower-case ascii) is at least 8. -/
-def checksumHex (digits : Bytes) : Bytes :=
-  let low := digits.map lowerHexChar
-  [48, 120] ++ (low.zip (nibbles (keccak256 low))).map fun (c, n) => if 97 ≤ c && 8 ≤ n then c - 32 else c
 
 def isAsciiDigit (c : Nat) : Bool := 48 ≤ c && c ≤ 57
 
